@@ -33,14 +33,18 @@ type ConfOp struct {
 	BadSig  bool   `json:"badsig"`
 }
 
+// (ConfCase.Start: batch nonces of this history begin after it; 254 makes the first batch number 255)
 type ConfCase struct {
 	Ops []ConfOp `json:"ops"`
+	// Start: the chains' batch-nonce and sequence counters begin here (so that nonces like 255, 256, 65535 occur);
+	// contract calls are numbered from Start+1 too
+	Start uint64 `json:"start,omitempty"`
 }
 
 var confChains = []string{"ethereum", "bsc"}
 
 func genConfCase(t *rapid.T) interface{} {
-	c := &ConfCase{}
+	c := &ConfCase{Start: rapid.SampledFrom([]uint64{0, 0, 0, 253, 254, 255, 65533, 65534, 16777214}).Draw(t, "start")}
 	n := rapid.IntRange(6, 50).Draw(t, "nops")
 	for i := 0; i < n; i++ {
 		k := rapid.IntRange(0, 99).Draw(t, "k")
@@ -103,6 +107,7 @@ func runConfCase(ci interface{}, rec *pbt.Rec) *pbt.Failure {
 	keys := []string{"ethereum", "bsc"}
 	cfg := sim.Config{Tokens: attTokens, Prices: []sim.PriceCfg{{Name: "hub", Value: "1"}, {Name: "eth", Value: "1"}, {Name: "bnb", Value: "1"}},
 		Vals: []sim.ValCfg{{Power: 10, Bonded: true, Keys: keys}, {Power: 12, Bonded: true, Keys: keys}, {Power: 5, Bonded: true, Keys: []string{"ethereum"}}, {Power: 9, Bonded: false, Keys: keys}}}
+	cfg.StartBatchNonce, cfg.StartSequence = c.Start, c.Start
 	h := sim.NewHub(cfg)
 	// validator 2 registered keys on ethereum only
 	hasKeyOn := func(v int, ch string) bool { return v != 2 || ch == "ethereum" }
@@ -363,6 +368,9 @@ func runConfCase(ci interface{}, rec *pbt.Rec) *pbt.Failure {
 			h.Deliver(&mtypes.MsgRequestBatchTx{Denom: "hub", Signer: sim.UserAddr(0).String(), ChainId: ch})
 		case "mkcall":
 			scope := []byte{byte(op.Val + 1), 7}
+			if nonceOf[ch+string(scope)] == 0 {
+				nonceOf[ch+string(scope)] = c.Start
+			}
 			nonceOf[ch+string(scope)]++
 			h.K.CreateContractCallTx(h.Ctx(), mtypes.ChainID(ch), nonceOf[ch+string(scope)], scope, []byte("payload"), nil, nil)
 		case "execbatch":
